@@ -186,7 +186,34 @@ def env_data(env):
     return norm_data(env.data(format=Format.TUPLE))
 
 
+class Hang(BaseException):
+    """The parse did not finish within the CPU-time budget (BaseException: no `except Exception` swallows it)."""
+
+
+def _on_timer(signum, frame):
+    raise Hang()
+
+
+CPU_BUDGET = 4.0      # seconds of CPU time for one program (a parse takes milliseconds)
+
+
 def run_program(rec, style, scratch):
+    """run_program_ guarded by a CPU-time limit: a parse that never ends is an observation ("hang")."""
+    import signal
+    old = signal.signal(signal.SIGVTALRM, _on_timer)
+    signal.setitimer(signal.ITIMER_VIRTUAL, CPU_BUDGET)
+    try:
+        return run_program_(rec, style, scratch)
+    except Hang:
+        first, second = split_program(rec)
+        return {"st": "hang", "data": None, "err": f"no result after {CPU_BUDGET} s of CPU time",
+                "texts": [render_lines(x, style) for x in (first, second) if x], "side": None}
+    finally:
+        signal.setitimer(signal.ITIMER_VIRTUAL, 0)
+        signal.signal(signal.SIGVTALRM, old)
+
+
+def run_program_(rec, style, scratch):
     """Execute one abstract program on the real DIP.  -> observation dict
        {st: ok|rej|unreadable, data, err, texts, side: {before, after}}"""
     from scinumtools.dip import DIP
